@@ -12,9 +12,10 @@ of the va_arg builtins, decoded prologues).
 
 Statements that are FALSE for the code as it is are kept visible: each has a `…_counterexample`
 (a concrete witness, checked by `decide`) and a `…_partial` theorem with the explicit extra
-hypothesis; the correspondence check replays every witness on the real generated code.  Today this
-concerns `va_start` only (§3); the long-double and `va_block_arg` defects were repaired in /repo
-(6f58eeff, a84677ea), their theorems are full and their witnesses are regression `example`s.
+hypothesis; the correspondence check replays every witness on the real generated code.  Today no
+such statement is left: the long-double, `va_block_arg` and `va_start` defects were repaired in
+/repo (6f58eeff, a84677ea, de2f5d8a), the theorems are full and the former witnesses are regression
+`example`s here and pinned replays in corpus/C06.
 -/
 namespace MirVerif.C06
 open MirVerif.AbiCallee
@@ -58,53 +59,25 @@ example : shimPlace [.dbl, .dbl, .dbl, .dbl, .dbl, .dbl, .dbl, .dbl, .blk 2 16]
 
 /-! ## 3. `va_start` in generated code -/
 
-/- FALSE today (defect #12 and relatives; candidate repair fixes/C06-va-start.patch):
-   statement  va_start_meets_sysv (ps) : (vaStartGen ps).toVaList.norm = sysvVaStart ps
-   `gp_offset += 8; if (gp_offset >= 48) mem_offset += 8` counts the sixth register argument as a
-   stack argument; the floating-point branch tests `gp_offset >= 176` (never true) instead of
-   `fp_offset`; block parameters are always counted as memory, with their unrounded size. -/
-
-/-- six named integer parameters: overflow area 8 bytes too high, the first variadic argument is skipped -/
-theorem va_start_counterexample_six_ints :
-    (vaStartGen [.int, .int, .int, .int, .int, .int]).toVaList.norm
-      ≠ sysvVaStart [.int, .int, .int, .int, .int, .int] := by decide
-
-/-- nine named doubles: the ninth is a stack argument the expansion does not count -/
-theorem va_start_counterexample_nine_fp :
-    (vaStartGen [.dbl, .dbl, .dbl, .dbl, .dbl, .dbl, .dbl, .dbl, .dbl]).toVaList.norm
-      ≠ sysvVaStart [.dbl, .dbl, .dbl, .dbl, .dbl, .dbl, .dbl, .dbl, .dbl] := by decide
-
-/-- a block passed in registers is counted as memory -/
-theorem va_start_counterexample_block_in_regs :
-    (vaStartGen [.int, .blk 1 16]).toVaList.norm ≠ sysvVaStart [.int, .blk 1 16] := by decide
-
-/-- a memory block whose size is not a multiple of 8 -/
-theorem va_start_counterexample_block_size :
-    (vaStartGen [.int, .blk 0 20]).toVaList.norm ≠ sysvVaStart [.int, .blk 0 20] := by decide
-
-/-- With fewer than six integer-class and at most eight SSE-class named parameters and only memory
-blocks whose size is a multiple of 8 (any number of `long double`s, padded as the psABI says since
-6f58eeff), the three fields stored by the expansion are exactly the psABI's. -/
-theorem va_start_meets_sysv_partial (ps : List PTy) (hok : vaStartOK ps = true) :
-    (vaStartGen ps).toVaList = sysvVaStart ps := by
-  simp only [vaStartOK, Bool.and_eq_true, decide_eq_true_eq] at hok
-  obtain ⟨⟨hi, hf⟩, hb⟩ := hok
-  have h := vaStart_fold ps ⟨0, 48, 0⟩ .init rfl rfl rfl
-    (by simpa [SysV.init] using hi) (by simpa [SysV.init] using hf) hb
-  obtain ⟨h1, h2, h3, _, _⟩ := h
-  simp only [vaStartGen, VaSt.toVaList, sysvVaStart, h1, h2, h3]
-
-example : vaStartOK [.int, .dbl, .blk 0 24, .ld, .int, .int, .dbl, .ld, .int, .rblk] = true := by decide
-
-/-- The candidate repair (`fixes/C06-va-start.patch`, modelled by `vaStartFixed`) is right for every
-well-formed named-parameter list: no extra hypothesis remains. -/
-theorem va_start_fixed_meets_sysv (ps : List PTy) (hwf : allWf ps = true) :
-    vaStartFixed ps = sysvVaStart ps := by
+/-- For every well-formed named-parameter list the three fields the expansion stores
+(gp_offset, fp_offset, overflow area offset) are exactly the psABI's.
+(Was `_partial` — fewer than six integer, at most eight SSE named parameters, plain memory blocks —
+until fix de2f5d8a took the counters of the argument loop; defect #12 and relatives.) -/
+theorem va_start_meets_sysv (ps : List PTy) (hwf : allWf ps = true) :
+    vaStartGen ps = sysvVaStart ps := by
   obtain ⟨h1, h2, h3⟩ := (machWalk_sysv 0 ps .init .init ⟨rfl, rfl, rfl⟩ hwf).2
-  simp only [vaStartFixed, sysvVaStart, h1, h2, h3, Nat.mul_comm]
+  simp only [vaStartGen, sysvVaStart, h1, h2, h3, Nat.mul_comm]
 
-example : vaStartFixed [.int, .int, .int, .int, .int, .int, .blk 1 16, .dbl, .blk 0 20, .ld]
-    = sysvVaStart [.int, .int, .int, .int, .int, .int, .blk 1 16, .dbl, .blk 0 20, .ld] := by decide
+example : allWf [.int, .int, .int, .int, .int, .int, .blk 1 16, .dbl, .blk 0 20, .ld] = true := by decide
+
+/-- regressions for the four former witnesses: six named integers, nine named doubles, a block passed
+in registers, a memory block of a size that is not a multiple of 8 -/
+example : vaStartGen [.int, .int, .int, .int, .int, .int] = sysvVaStart [.int, .int, .int, .int, .int, .int] := by
+  decide
+example : vaStartGen [.dbl, .dbl, .dbl, .dbl, .dbl, .dbl, .dbl, .dbl, .dbl]
+    = sysvVaStart [.dbl, .dbl, .dbl, .dbl, .dbl, .dbl, .dbl, .dbl, .dbl] := by decide
+example : vaStartGen [.int, .blk 1 16] = sysvVaStart [.int, .blk 1 16] := by decide
+example : vaStartGen [.int, .blk 0 20] = sysvVaStart [.int, .blk 0 20] := by decide
 
 /-! ## 4. Fetching variadic arguments (`va_arg_builtin`, `va_block_arg_builtin`) -/
 
@@ -128,12 +101,11 @@ example : ((vaArgWalk (sysvVaStart [.int]) [.dbl, .dbl, .dbl, .dbl, .dbl, .dbl, 
 example : ((vaArgWalk (sysvVaStart [.int]) [.int, .int, .int, .int, .int, .int, .ld]).1.map (·.map Src.toPiece))
     = (sysvWalk (sysvWalk .init [.int]).2 [.int, .int, .int, .int, .int, .int, .ld]).1 := by decide
 
-/-- generated code end to end: `va_start` after `named` (still under `vaStartOK`, see §3), then the walk -/
-theorem vararg_gen_partial (named tail : List PTy) (hn : allWf named = true) (hok : vaStartOK named = true)
-    (hwf : allWf tail = true) :
-    (vaArgWalk (vaStartGen named).toVaList tail).1.map (·.map Src.toPiece)
+/-- generated code end to end, every signature: `va_start` after `named`, then the walk -/
+theorem vararg_gen (named tail : List PTy) (hn : allWf named = true) (hwf : allWf tail = true) :
+    (vaArgWalk (vaStartGen named) tail).1.map (·.map Src.toPiece)
       = (sysvWalk (sysvWalk .init named).2 tail).1 := by
-  rw [va_start_meets_sysv_partial named hok]
+  rw [va_start_meets_sysv named hn]
   have hb := sysvWalk_bounds named .init hn (by decide) (by decide)
   exact va_arg_walk _ _ tail ⟨rfl, rfl, rfl, hb.1, hb.2⟩ hwf
 
@@ -143,7 +115,7 @@ theorem vararg_shim (named tail : List PTy) (hn : allWf named = true) (hwf : all
       = (sysvWalk (sysvWalk .init named).2 tail).1 :=
   va_arg_walk _ _ tail (shim_meets_sysv named hn).2 hwf
 
-example : allWf [.int, .dbl] = true ∧ vaStartOK [.int, .dbl] = true
+example : allWf [.int, .int, .int, .int, .int, .int, .int, .dbl, .blk 1 16] = true
     ∧ allWf [.int, .dbl, .blk 1 16, .int, .blk 3 16, .int, .int, .blk 2 8, .ld, .int, .blk 0 24, .blk 4 12] = true := by
   decide
 
